@@ -3,6 +3,7 @@ import ast
 
 from ..index import AnalysisError, attr_chain, norm, own_nodes
 from .common import resolved_text
+from ..flow import reaching_defs as reaching
 
 EXPLANATION = (
     "Static lockset analysis. For SessionCache (entriesDict, entriesList, firstIndex, lastIndex), "
@@ -256,6 +257,19 @@ def rule_ring(ctx):
                     c = attr_chain(t)
                     if c:
                         ring.add(c)
+    # every wrap-around in the cache wraps at the size of the ring (a different modulus leaves slots
+    # that are never purged or evicted)
+    n_mod = 0
+    for m in cls.methods.values():
+        for n in own_nodes(m.node):
+            if isinstance(n, ast.BinOp) and isinstance(n.op, ast.Mod) and not isinstance(n.left, ast.Constant):
+                n_mod += 1
+                ctx.check(R, "len(self.entriesList)" in resolved_text(m.node, n.right), m.qname, n,
+                          "an index of the circular list is wrapped modulo `%s`, not the size of the list "
+                          "(len(self.entriesList))" % norm(n.right), m.loc(n),
+                          what="%s: `%s` wraps at the ring size" % (m.short, norm(n)))
+    if n_mod < 3:
+        raise AnalysisError("C18.RING: %d wrap-arounds found, confirmed 3" % n_mod)
     # locals initialised from a ring index are ring indices too
     for m in cls.methods.values():
         for n in own_nodes(m.node):
@@ -367,7 +381,51 @@ def rule_clock(ctx):
     ctx.require(reads >= 2, "C18.CLOCK: %d clock reads found in SessionCache, floor 2" % reads)
 
 
+def rule_identity(ctx):
+    """IDENTITY: the cache holds the very Session object it was handed and hands the same object back.
+    The connection that filled it keeps updating that object (master secret after Finished, tickets,
+    `resumable = False` on a fatal alert); a copy taken at insertion or on lookup would stay resumable
+    after the connection invalidated the session."""
+    R = "C18.IDENTITY"
+    seti = ctx.index.func("sessioncache:SessionCache.__setitem__")
+    params = [a.arg for a in seti.node.args.args]
+    if len(params) < 3:
+        raise AnalysisError("%s: signature of SessionCache.__setitem__ not recognised" % R)
+    val = params[2]
+    stores = [n for n in own_nodes(seti.node) if isinstance(n, ast.Assign) and len(n.targets) == 1
+              and isinstance(n.targets[0], ast.Subscript) and attr_chain(n.targets[0].value) == "self.entriesDict"]
+    if not stores:
+        raise AnalysisError("%s: store into entriesDict not found" % R)
+    rebound = [n for n in own_nodes(seti.node) if isinstance(n, ast.Name) and n.id == val and isinstance(n.ctx, ast.Store)]
+    for st in stores:
+        ok = isinstance(st.value, ast.Name) and st.value.id == val and not rebound
+        ctx.check(R, ok, seti.qname, st,
+                  "the cache stores `%s` instead of the Session object it was handed: later changes to the "
+                  "session (invalidation by a fatal alert, the master secret) do not reach the cached entry"
+                  % norm(st.value), seti.loc(st), what="__setitem__ stores the caller's object")
+    geti = ctx.index.func("sessioncache:SessionCache.__getitem__")
+    g = ctx.an.cfg(geti)
+    n_ret = 0
+    for r in [n for n in g.nodes if n.kind == "return" and n.ast is not None and n.ast.value is not None]:
+        n_ret += 1
+        v = r.ast.value
+        src = None
+        if isinstance(v, ast.Name):
+            ds = reaching(g, r, v.id)
+            if len(ds) == 1 and isinstance(ds[0].ast, ast.Assign):
+                src = ds[0].ast.value
+        else:
+            src = v
+        ok = isinstance(src, ast.Subscript) and attr_chain(src.value) == "self.entriesDict"
+        ctx.check(R, ok, geti.qname, r.ast,
+                  "the cache returns `%s`, not the stored Session object itself" % (norm(src) if src is not None else norm(v)),
+                  geti.loc(r.ast), what="__getitem__ returns the stored object")
+    if n_ret < 1:
+        raise AnalysisError("%s: return of SessionCache.__getitem__ not found" % R)
+
+
 RULES = [
+    ("C18.IDENTITY", "quick", rule_identity),
     ("C18.CLOCK", "quick", rule_clock),
     ("C18.LOCKSET", "quick", rule_lockset),
     ("C18.RING", "quick", rule_ring),
